@@ -10,7 +10,7 @@ import random
 from . import sim
 
 NAMES = ["a", "b", "c", "d", "e", "f", "g", "h", "k", "m", "t-1", "x_2", "Z9", "run-all"]
-PKGS = ["", "p", "p/q", "lib", "exp-1", "subtask", "a_task/x"]
+PKGS = ["", "p", "p/q", "lib", "exp-1", "subtask", "a_task/x", "archive-tmp"]
 STR_VALUES = ["abc", "x.y", "a-b_c", "10k", "path/to", "v1.2.3", "True", "0"]
 ODD_STR_VALUES = ["caf\u00e9", "\u65e5\u672c", "na\u00efve-\u00fc", "\udc80x", "a\udcffb"]   # non-ASCII; lone surrogates = raw non-UTF-8 bytes
 
